@@ -14,10 +14,11 @@ META = dict(
     id='C13',
     level='proof',
     technique='Coq proof (the transcribed date_interval_t state machine and interval_posts::flush refine a simple specification: consecutive steps of one duration from an anchor, clipped to [from, to)) + differential correspondence of the extracted model against ledger',
-    level_text='Theorems in coq/Properties/Properties_C13.v state, for all durations of at least one unit, all from/to bounds, all week starts and both --align-intervals settings, that adding a duration strictly increases a date (incl. month ends and leap days, boost month arithmetic modelled in Model/PeriodCalendar.v), that the intervals the model of date_interval_t (stabilize / resolve_end / operator++ / find_period, times.cc:1133-1413) steps through are exactly the specification sequence s_0 = anchor, s_{i+1} = s_i + duration clipped to [from, to), that these intervals are consecutive, disjoint, one duration long except where clipped, aligned to month/quarter/year starts or the configured week day, that every date within the bounds lies in exactly one of them, and that the model of interval_posts::flush puts every posting into the group whose interval contains its date, so the group subtotals add up to the total. The model is tied to the code by comparing, on thousands of generated period expressions and journals, the output of `ledger period` and of `reg --period` (row dates, end labels, exact subtotals) with the extracted model. Bounds written in a user --input-date-format: the directive lists from which the date reader derives whether a format has a year, month and day are re-read from src/times.cc on every run (both sites must agree), and a theorem states that a bound written in a format with %Y/%y/%F, %m/%b/%B/%F and %d/%F reaches the interval object as the date the text names. --group-by: whether interval_posts::clear() empties all_posts is re-read from src/filters.h; when it does, each group is reported from its own postings only (theorem), while it does not the model reproduces the carry-over (finding F125, refutation theorem).',
-    level_note='Trusted: Coq kernel; extraction + OCaml driver and the python harness for the correspondence; boost::gregorian day-number/ymd conversion and month arithmetic modelled in Model/PeriodCalendar.v (validated against ledger and python datetime); the period-expression parser and the from/to limit predicates added by report_t::normalize_period are glue (the harness renders the expression text and filters the postings by the bounds; the oracle checks that filter against ledger\'s own `reg --begin --end`). Amounts are positive so that no group displays as zero.',
+    level_text='Theorems in coq/Properties/Properties_C13.v state, for all durations of at least one unit, all from/to bounds, all week starts and both --align-intervals settings, that adding a duration strictly increases a date (incl. month ends and leap days, boost month arithmetic modelled in Model/PeriodCalendar.v), that the intervals the model of date_interval_t (stabilize / resolve_end / operator++ / find_period, times.cc:1133-1413) steps through are exactly the specification sequence s_0 = anchor, s_{i+1} = s_i + duration clipped to [from, to), that these intervals are consecutive, disjoint, one duration long except where clipped, aligned to month/quarter/year starts or the configured week day, that every date within the bounds lies in exactly one of them, and that the model of interval_posts::flush puts every posting into the group whose interval contains its date, so the group subtotals add up to the total. The model is tied to the code by comparing, on thousands of generated period expressions and journals, the output of `ledger period` and of `reg --period` (row dates, end labels, exact subtotals) with the extracted model. Bounds written in a user --input-date-format: the directive lists from which the date reader derives whether a format has a year, month and day are re-read from src/times.cc on every run (both sites must agree), and a theorem states that a bound written in a format with %Y/%y/%F, %m/%b/%B/%F and %d/%F reaches the interval object as the date the text names. The period EXPRESSION: the lexer (words split at blanks, folded to lower case, looked up in the keyword table) and the parser loop (named forms, every N units, every unit, from/since, to/until, in, a bare date) are modelled in Model/PeriodExpr.v; the keyword table of lexer_t::next_token and the three token -> duration switches of date_parser_t::parse are re-read from src/times.cc on every run (Gen/PeriodWords.v), and theorems state that each form the property names denotes the stated duration in any letter case, that `every 0 ..` is refused, and that duration, from and to clauses mean the same in any order (the interval object is init d from to, the object of all other theorems). In every reg/period case the model is given the expression TEXT, not the reading of it by the harness; the token kinds `ledger period` lists are compared with the lexer of the model, and a stream of expressions that must be refused is compared too. --group-by: whether interval_posts::clear() empties all_posts is re-read from src/filters.h; when it does, each group is reported from its own postings only (theorem), while it does not the model reproduces the carry-over (finding F125, refutation theorem).',
+    level_note='Trusted: Coq kernel; extraction + OCaml driver and the python harness for the correspondence; boost::gregorian day-number/ymd conversion and month arithmetic modelled in Model/PeriodCalendar.v (validated against ledger and python datetime); reading a date word (the date reader, C14) is glue: the harness hands the model the day each date word names; the from/to limit predicates added by report_t::normalize_period are glue (the driver filters the postings by the bounds of the parsed interval; the oracle checks that filter against ledger\'s own `reg --limit`). Not modelled in the expression: month and weekday names, this/next/last, today/tomorrow/yesterday, N units ago/hence, a bare integer, the `-` range. Amounts are positive so that no group displays as zero.',
     design_ref='DESIGN.md section 7 C13, section 6.5',
     assumptions=['from < to when both are given', 'postings carry no auxiliary dates; one account and one commodity per report so that a row is one interval',
+                 '--start-of-week is given as a number 0-6 or a day name; a day name that is not all lower case is ignored without a message (finding F13a: the model is given the week start ledger ends up with, the oracle the one the command line names)',
                  'posting amounts are positive (a zero group subtotal is hidden by the register report unless --empty)',
                  '--input-date-format values use only the directives %Y %y %m %b %B %d %F, start with a digit and contain no blank (a period date word must); observed on the unchanged tree and not claimed: the reader traits do not know %e, %j, %D or %h, so `monthly from 10-03-2021` under --input-date-format %e-%m-%Y is taken as from 2021/03/01'],
 )
@@ -111,20 +112,40 @@ def bounds_format(case):
     return case.get('bfmt') or '%Y/%m/%d'
 
 
+def kw(rng, word):
+    """a keyword in the letter case the lexer has to fold (to_lower): mostly as usually written"""
+    r = rng.random()
+    return word if r < 0.8 else word.capitalize() if r < 0.9 else word.upper()
+
+
 def expr_text(rng, case):
+    """the expression text; case['dates'] = the days its date words name, in the order written (the model's lexer
+    and parser read the TEXT, the day a date word names is handed over with it).  The clauses - duration, from, to -
+    come in any order, the keywords in any letter case."""
     s = dur_text(rng, case['q'], case['n'], case.get('form'))
+    if case.get('form') is None and rng.random() < 0.2:
+        s = ' '.join(w if w.isdigit() else kw(rng, w) for w in s.split())
     fmt = case.get('bfmt')
     if fmt is None:
         # the built-in readers; with --input-date-format the separators are no longer normalised, both still read
         fmt = rng.choice(['%Y/%m/%d', '%Y/%m/%d', '%Y-%m-%d'])
     if case['from'] is not None and case['to'] == case['from'] + 1 and rng.random() < 0.7:
         # a single day: `in D` / a bare date is the range [D, D + 1 day)
-        return s + rng.choice([' in ', ' ']) + nd(case['from']).strftime(fmt)
+        case['dates'] = [case['from']]
+        clause = rng.choice([kw(rng, 'in') + ' ', '']) + nd(case['from']).strftime(fmt)
+        return s + ' ' + clause if rng.random() < 0.7 else clause + ' ' + s
+    clauses = [('d', s)]
     if case['from'] is not None:
-        s += ' %s %s' % (rng.choice(['from', 'since']), nd(case['from']).strftime(fmt))
+        clauses.append((case['from'], '%s %s' % (kw(rng, rng.choice(['from', 'since'])), nd(case['from']).strftime(fmt))))
     if case['to'] is not None:
-        s += ' %s %s' % (rng.choice(['to', 'until']), nd(case['to']).strftime(fmt))
-    return s
+        clauses.append((case['to'], '%s %s' % (kw(rng, rng.choice(['to', 'until'])), nd(case['to']).strftime(fmt))))
+    if rng.random() < 0.35:
+        rng.shuffle(clauses)
+        case['shuffled'] = True
+    else:
+        case['shuffled'] = False
+    case['dates'] = [k for k, _ in clauses if k != 'd']
+    return ' '.join(t for _, t in clauses)
 
 
 def set_format(rng, case, fmt):
@@ -235,8 +256,26 @@ def gen_case(rng, exhaustive=None):
     case['from'] = dn(f) if f else None
     case['to'] = dn(t) if t else None
     case['group'] = False
+    if rng.random() < (0.3 if q == 'w' else 0.05):
+        spell_week_start(rng, case)
     set_format(rng, case, None)
     return case
+
+
+WDAYS = ['sunday', 'monday', 'tuesday', 'wednesday', 'thursday', 'friday', 'saturday']
+
+
+def spell_week_start(rng, case):
+    """--start-of-week takes a day NAME as well as a number.  sow = the day the command line names (what the
+    property calls the configured first day of the week); sow_eff = what report_t::normalize_options makes of the
+    text: string_to_day_of_week compares it AS WRITTEN with sun/sunday/0 ... sat/saturday/6 and a text it does
+    not know leaves the default (Sunday) in place, without a message - the model is given sow_eff"""
+    name = WDAYS[case['sow']]
+    word = rng.choice([name, name[:3]])
+    if rng.random() < 0.3:
+        word = rng.choice([word.capitalize(), word.upper()])
+    case['sow_text'] = word
+    case['sow_eff'] = case['sow'] if word == word.lower() else 0
 
 
 # ---- running ledger ------------------------------------------------------------------------------
@@ -262,7 +301,9 @@ def fmt_args(case):
 def reg_args(case, jpath):
     a = ['-f', jpath] + fmt_args(case) + ['reg', '^Assets:A', '--period', case['expr'], '--now', '2021/06/15',
                                           '--date-format', '%Y-%m-%d', '--format', ROWFMT]
-    if case['sow'] != 0 or case.get('sow_explicit'):
+    if case.get('sow_text'):
+        a += ['--start-of-week', case['sow_text']]
+    elif case['sow'] != 0 or case.get('sow_explicit'):
         a += ['--start-of-week', str(case['sow'])]
     if case['align']:
         a += ['--align-intervals']
@@ -348,7 +389,9 @@ def run_period(case):
     finish = re.search(r'^\s*finish: (\S+)$', m.group(1), re.M)
     dur = re.search(r'^duration: (.*)$', m.group(1), re.M)
     samples = re.findall(r'^\s*\d+: (\S+) -- (\S+)$', m.group(2), re.M)
-    return ('OK', start.group(1) if start else '-', finish.group(1) if finish else '-', dur.group(1) if dur else '-', samples)
+    t = re.search(r'--- Period expression tokens ---\n(.*?)\n\n--- Before stabilization ---', text, re.S)
+    toks = [l.split(':')[0] for l in t.group(1).split('\n')] if t else ['?']
+    return ('OK', start.group(1) if start else '-', finish.group(1) if finish else '-', dur.group(1) if dur else '-', samples, toks)
 
 
 # ---- model ---------------------------------------------------------------------------------------
@@ -358,14 +401,15 @@ def model_head(kind, cid, case):
 
 
 def model_tail(case):
-    """the format the bounds are written in (as bytes) and the current year"""
-    return [bounds_format(case).encode(), NOW.year]
+    """the format the bounds are written in (as bytes), the current year, the expression text (as bytes) and the
+    days its date words name in the order written"""
+    return [bounds_format(case).encode(), NOW.year, case['expr'].encode(), list(case['dates'])]
 
 
 def model_reg_line(cid, case, posts):
     """all postings of the account in date order (stable, as std::stable_sort); the driver limits them to the
     bounds the model derives from the text; with --group-by: one list per payee, in payee order, journal order"""
-    head = model_head('greg' if case.get('group') else 'reg', cid, case) + [case['sow'], case['align'], case['empty']] + model_tail(case)
+    head = model_head('greg' if case.get('group') else 'reg', cid, case) + [case.get('sow_eff', case['sow']), case['align'], case['empty']] + model_tail(case)
     if case.get('group'):
         gs = []
         for payee in sorted({p[2] for p in posts}):
@@ -485,10 +529,13 @@ def century_fix(samples):
 
 # ---- the run -------------------------------------------------------------------------------------
 def form_of(case):
-    w = case['expr'].split()[0].lower()
-    if w == 'every':
-        return 'every-N-units' if case['expr'].split()[1].isdigit() else 'every-unit'
-    return w
+    ws = [w.lower() for w in case['expr'].split()]
+    for i, w in enumerate(ws):
+        if w == 'every':
+            return 'every-N-units' if ws[i + 1].isdigit() else 'every-unit'
+        if w in NAMED:
+            return w
+    return '?'
 
 
 def canon_rows(rows, impl):
@@ -500,6 +547,7 @@ def canon_rows(rows, impl):
 def full_case(case, journal):
     return dict(expr=case['expr'], sow=case['sow'], align=case['align'], empty=case['empty'], q=case['q'], n=case['n'],
                 fmt=case.get('fmt'), bfmt=case.get('bfmt'), group=bool(case.get('group')),
+                sow_text=case.get('sow_text'), sow_eff=case.get('sow_eff'),
                 **{'from': case['from'], 'to': case['to']}, journal=journal['text'])
 
 
@@ -522,7 +570,7 @@ def oracle_rows(case, rows, posts, lab, viol):
 
 def check_reg(res, case, journal, impl, plain, model):
     cid = '%s@j%d' % (case['expr'], journal['idx'])
-    opts = 'sow=%d align=%d empty=%d fmt=%s%s' % (case['sow'], case['align'], case['empty'], case.get('fmt'), ' group-by' if case.get('group') else '')
+    opts = 'sow=%s align=%d empty=%d fmt=%s%s' % (case.get('sow_text') or case['sow'], case['align'], case['empty'], case.get('fmt'), ' group-by' if case.get('group') else '')
     full = full_case(case, journal)
     res.evaluations += 1
     res.traces += 1
@@ -534,6 +582,8 @@ def check_reg(res, case, journal, impl, plain, model):
     res.count('reg:input-date-format=%s' % (case.get('fmt') or 'none'))
     if case.get('fmt') and case.get('bfmt') and (case['from'] is not None or case['to'] is not None):
         res.count('reg:bounds-written-in-input-date-format')
+    if case.get('shuffled') and (case['from'] is not None or case['to'] is not None):
+        res.count('reg:clauses-not-in-the-usual-order')
     if case['align']:
         res.count('reg:align')
     if case['empty']:
@@ -580,7 +630,13 @@ def check_reg(res, case, journal, impl, plain, model):
             res.samples.append(dict(expr=case['expr'], options=opts, rows=['%s..%s %s' % (s, e, a) for s, e, a, _ in rows[:4]]))
     # oracle
     def viol(key, desc, observed, required):
+        if case.get('sow_text') and case.get('sow_eff') != case['sow']:
+            # whatever the symptom: the week start named on the command line is not the one the report uses
+            key = 'reg:start-of-week:day-name-not-in-lower-case-ignored'
+            desc = '--start-of-week %s is ignored without a message; %s' % (case['sow_text'], desc)
         res.violations.append(dict(key=key, desc='%s (%s %s)' % (desc, case['expr'], opts), case=full, observed=observed, required=required))
+    if case.get('sow_text'):
+        res.count('reg:start-of-week-as-a-day-name%s' % ('' if case['sow_text'] == case['sow_text'].lower() else ':not-lower-case'))
     if plain is None:
         viol('reg:plain-report-failed', 'the unperiodised report failed', None, 'a report')
         return
@@ -622,7 +678,15 @@ def check_period(res, case, impl, model_line):
         if not (body == 'ERR' and impl[0] != 'OK'):
             res.disagreements.append(dict(name='C13/period-cmd', case=full, impl=str(impl)[:300], model=body[:300]))
         return
-    m = re.fullmatch(r'start=(\S+) finish=(\S+) samples=(\S*)', body)
+    m = re.fullmatch(r'start=(\S+) finish=(\S+) samples=(\S*) toks=(\S*)', body)
+    # the lexer: the token kinds ledger lists against the model's (Model/PeriodExpr.v tokens_of_text)
+    mtoks = m.group(4).split(',') + ['END_REACHED']
+    if impl[5] != mtoks:
+        res.disagreements.append(dict(name='C13/period-tokens', case=full, impl=str(impl[5])[:300], model=str(mtoks)[:300]))
+    if case.get('shuffled') and (case['from'] is not None or case['to'] is not None):
+        res.count('period:clauses-not-in-the-usual-order')
+    if case['expr'] != case['expr'].lower():
+        res.count('period:keyword-not-lower-case')
     ms = '-' if m.group(1) == '-' else short(nd(int(m.group(1))))
     mf = '-' if m.group(2) == '-' else short(nd(int(m.group(2))))
     msamp = []
@@ -714,6 +778,47 @@ def named_word_cases(rng):
     return out
 
 
+def rejected_cases(rng):
+    """expressions the parser has to REFUSE (the theorems every_zero_rejected, expression_read_clause_by_clause say
+    so for the model): a zero length, a unit of the wrong number, a second from / to / in, a bound without its date,
+    a word that is no keyword, an integer the lexer's unsigned short cannot hold.  [(text, days of its date words)]"""
+    out = []
+    a, b = sorted(dn(boundary_date(rng, 2019, 2024)) for _ in range(2))
+    b = b + 1 if a == b else b
+    da, db = nd(a).strftime('%Y/%m/%d'), nd(b).strftime('%Y/%m/%d')
+    w = rng.choice(list(NAMED))
+    for q in 'dwmqy':
+        out.append(('%s 0 %s' % (kw(rng, 'every'), QNAME[q]), []))
+        out.append(('every %s' % QNAME[q], []))                                   # the plural needs its integer
+        out.append(('every %d %s' % (rng.randrange(1, 13), QSING[q]), []))         # the singular takes none
+    out += [('every', []), ('every %d' % rng.randrange(1, 13), []), ('every every 2 days', []),
+            ('every 65536 days', []), ('every %d weeks' % rng.randrange(65536, 100000), []),
+            ('%s from %s since %s' % (w, da, db), [a, b]), ('from %s %s from %s' % (da, w, db), [a, b]),
+            ('%s to %s until %s' % (w, da, db), [a, b]), ('until %s to %s %s' % (da, db, w), [a, b]),
+            ('%s in %s in %s' % (w, da, db), [a, b]), ('%s from' % w, []), ('%s to' % w, []), ('%s in' % w, []),
+            ('%s from %s' % (w, w), []), ('from to %s %s' % (da, w), [a]),
+            ('fortnightly', []), ('%sx' % w, []), ('%s2' % w, []), ('semi%s' % w, []), ('every 2 fortnights', []),
+            ('%s frmo %s' % (w, da), [a])]
+    return out
+
+
+def check_rejected(res, text, dates, impl, model_line):
+    res.evaluations += 1
+    res.traces += 1
+    res.count('period:rejected-expression')
+    body = model_line.split(' ', 1)[1]
+    if impl[0] == 'OK' or body != 'ERR':
+        res.disagreements.append(dict(name='C13/period-rejects', case=dict(expr=text, dates=dates),
+                                      impl='accepted: ' + str(impl[1:5])[:300] if impl[0] == 'OK' else 'rejected: ' + str(impl[1:])[:200],
+                                      model=body[:300]))
+    elif failure_class(impl) not in ('period-syntax', 'error'):
+        # a refusal is a message, not a crash or a hang
+        res.violations.append(dict(key='period:rejected-expression:' + failure_class(impl), desc='period %s: %s' % (text, str(impl[1:])[:200]),
+                                   case=dict(expr=text), observed=str(impl)[:300], required='an error message'))
+    else:
+        res.nontrivial.add('rejected ' + text)
+
+
 def cases_for(ctx, rng, n_reg, n_period, exhaustive):
     regs, periods = named_word_cases(rng), named_word_cases(rng)
     combos = [(q, n) for q in 'dwmqy' for n in range(1, 13)]
@@ -734,7 +839,7 @@ def run(ctx, n_override=None):
     res = lib.Result()
     res.rule = ('period expressions (named forms, `every N units` with N in 1..12, `every unit`; from/since and to/until '
                 'bounds on month ends, leap days, period boundaries +-1 and random dates; week starts 0-6; --align-intervals, '
-                '--empty; --input-date-format with month names, other field orders, separators and two-digit years, the bounds '
+                '--empty; --start-of-week as a number or a day name; clauses in any order, keywords in any letter case; expressions that must be refused; --input-date-format with month names, other field orders, separators and two-digit years, the bounds '
                 'and the journal dates written in it; --group-by payee) x journals of 1-120 postings dated over 2019-2025; '
                 '`ledger period` output and `reg --period` '
                 'rows compared with the model; non-trivial = at least two intervals reported; distinct by expression, '
@@ -788,6 +893,8 @@ def run(ctx, n_override=None):
         plain_vals = list(ex.map(lambda k: run_plain({'from': k[1], 'to': k[2], 'fmt': journals_by_idx[k[0]]['fmt']},
                                                      journals_by_idx[k[0]]['path']), plain_keys))
         impl_period = list(ex.map(run_period, periods))
+        rejected = rejected_cases(rng)
+        impl_rejected = list(ex.map(lambda td: run_period(dict(expr=td[0])), rejected))
     lib.log('C13: implementation runs done %.0fs' % (time.time() - t_run))
     plain = dict(zip(plain_keys, plain_vals))
     lines = []
@@ -795,12 +902,16 @@ def run(ctx, n_override=None):
         lines.append(model_reg_line('r%d' % i, c, jn['posts']))
     for i, c in enumerate(periods):
         lines.append(model_period_line('p%d' % i, c))
+    for i, (text, dates) in enumerate(rejected):
+        lines.append(lib.sx(['period', 'x%d' % i, 'd', 1, '-', '-', dn(NOW), b'%Y/%m/%d', NOW.year, text.encode(), list(dates)]))
     out = lib.run_model('C13', lines)
     lib.log('C13: model done %.0fs' % (time.time() - t_run))
     for i, (c, jn) in enumerate(jobs):
         check_reg(res, c, jn, impl_reg[i], plain[(jn['idx'], c['from'], c['to'])], parse_model_rows(out[i]))
     for i, c in enumerate(periods):
         check_period(res, c, impl_period[i], out[len(jobs) + i])
+    for i, (text, dates) in enumerate(rejected):
+        check_rejected(res, text, dates, impl_rejected[i], out[len(jobs) + len(periods) + i])
     lib.log('C13: checks done %.0fs' % (time.time() - t_run))
     calendar_spot(ctx, rng, res)
     return res
